@@ -356,7 +356,7 @@ def rule_literal_terms(ctx: Ctx, rid="C05.LITERAL-VALUES"):
                         text=f"{o.prog.label}|{_short(alien[0], 60)}|{_short(twin, 60)}", facts={"generated": o.text})
 
 
-def rule_coercions(ctx: Ctx, rid="C05.NO-LOSSY-UNION", fields=None):
+def rule_coercions(ctx: Ctx, rid="C05.NO-LOSSY-UNION", fields=None, skip_validators_on=()):
     seen = {}
     for o in ctx.outcomes():
         for what, where, fsite, srcsym in o.interp.pyd_events:
@@ -390,7 +390,7 @@ def rule_coercions(ctx: Ctx, rid="C05.NO-LOSSY-UNION", fields=None):
     # validators that rewrite values
     for o in ctx.outcomes():
         for what, where, fsite, srcsym in o.interp.pyd_events:
-            if what == "validator-rewrite" and (fields is None or any(where.endswith("." + f) or f in where.split(".")[-1].split("/") for f in fields)):
+            if what == "validator-rewrite" and not any(f in where.split(".")[-1].split("/") for f in skip_validators_on) and (fields is None or any(where.endswith("." + f) or f in where.split(".")[-1].split("/") for f in fields)):
                 k = ("validator", where)
                 if k not in seen:
                     seen[k] = 1
@@ -492,25 +492,35 @@ def rule_placement(ctx: Ctx, rid="C13.PLACEMENT"):
     return n
 
 
-ALLOWED_CALLS = {"partial", "map", "''.join", "ExperimentConditionalFailedError", "str"}
+DYNAMIC_CALLS = {"exec", "eval", "compile", "__import__", "getattr", "setattr", "globals", "locals", "vars", "open",
+                 "importlib.import_module", "os.system", "subprocess.run", "subprocess.Popen"}
 
 
 def rule_constant_skeleton(ctx: Ctx, rid="C13.CONSTANT-SKELETON"):
+    """Which functions the generated module calls does not depend on the source text: no callee
+    (or attribute chain) is derived from a token value, and the skeleton contains no dynamic
+    execution / reflection call, no global statement and no default argument."""
     for o, ir, err in irs(ctx):
         if ir is None:
             continue
-        calls = set(ir["calls"]) - {ir["helper_name"]}
-        # the application `helper(...)(key)` has a Call as func
-        calls = {c for c in calls if not c.startswith(ir["helper_name"] + "(")}
-        extra = calls - ALLOWED_CALLS
-        stm = set(ir["statement_kinds"]) - {"FunctionDef", "Return", "If", "Raise", "ImportFrom", "Import", "Expr", "Pass"}
+        idents = {h.sym.name for h in o.holes() if h.sym.kind == "ident"}
+        problems = []
+        for c in ir["calls"]:
+            head = c.split("(")[0].split(".")[0]
+            if head in idents and head != ir["helper_name"] and head != o.prog.name.name:
+                problems.append(f"a DSL identifier is called as a function: {c[:40]}")
+            if PLACE_RE.search(c.split("(")[0]):
+                problems.append(f"literal content appears in a callee: {c[:40]}")
+            if c in DYNAMIC_CALLS:
+                problems.append(f"the generated code calls {c}")
+        if ir["has_global"]:
+            problems.append("the generated code contains a global/nonlocal statement")
         con = f"{GEN}:PythonCodeGen.generate <- {_label(o)}"
-        if extra or stm or ir["module_level_other"] or ir["has_global"]:
-            ctx.rep.bad(rid, con, f"the generated module contains constructs outside the fixed evaluation skeleton: calls "
-                        f"{sorted(extra)}, statements {sorted(stm)}, module-level {ir['module_level_other'][:2]}",
-                        text=f"{sorted(extra)}|{sorted(stm)}", facts={"generated": o.text})
+        if problems:
+            ctx.rep.bad(rid, con, problems[0], text=f"{o.prog.label}|{problems[0][:80]}", facts={"generated": o.text})
         else:
-            ctx.rep.ok(rid, con, "only the fixed skeleton's calls and statement kinds occur")
+            ctx.rep.ok(rid, con, f"callees are fixed names ({', '.join(sorted(set(x.split('(')[0] for x in ir['calls']))[:6])}), "
+                       "none derived from a token value; no dynamic execution or global statement")
 
 
 def rule_string_surface(ctx: Ctx, rid="C13.TAINT-COVERAGE"):
@@ -711,7 +721,8 @@ def rule_header_imports(ctx: Ctx, rid="C14.HEADER-COVERS-FREE-NAMES"):
         if ir is None:
             continue
         b = set(dir(builtins))
-        free = (ir["helper_free"] | ir["main_free"]) - b - set(ir["defs"]) - set(ir["main_params"]) - {ir["main_kwargs"]}
+        dsl = {h.sym.name for h in o.holes() if h.sym.kind == "ident"}
+        free = (ir["helper_free"] | ir["main_free"]) - b - set(ir["defs"]) - set(ir["main_params"]) - {ir["main_kwargs"]} - dsl
         imported = {a: (m, n) for m, n, a in ir["imports"]}
         key = (tuple(sorted(free)), tuple(sorted(imported.items())))
         if key in done:
